@@ -72,6 +72,23 @@ func init() {
 			if tier == "thorough" {
 				n = 4000
 			}
+			// a query one field rejects (a number on the pattern field) whose other fields satisfy a LARGER conjunction, straight
+			// before ordinary queries: what the rejected one had collected must not show in the next answers of any index
+			{
+				one := func(f int, v int64) eExpr { return eExpr{F: f, Inc: true, V: tvSlice("[]int", tvInt("int", v))} }
+				docs := []eDoc{
+					{ID: 1, Cons: []eConj{{one(0, 7), one(2, 1)}}},
+					{ID: 2, Cons: []eConj{{{F: 1, Inc: true, V: tvStr("abc")}}}},
+					{ID: 3, Cons: []eConj{{one(0, 7)}}},
+					{ID: 4, Cons: []eConj{{one(0, 8), one(2, 1)}}}, // (the pattern field must not occur at this size: its holder would reject first)
+				}
+				bad := eQuery{A: []eAssign{{F: 0, V: tvInt("int", 7)}, {F: 2, V: tvInt("int", 1)}, {F: 1, V: tvInt("int", 42)}}}
+				var qs []eQuery
+				for _, q := range []eQuery{{A: []eAssign{{F: 0, V: tvInt("int", 8)}}}, {A: []eAssign{{F: 1, V: tvStr("xabcx")}}}, {A: []eAssign{{F: 0, V: tvInt("int", 9)}, {F: 2, V: tvInt("int", 1)}}}, {}} {
+					qs = append(qs, bad, q)
+				}
+				add(triIn{Tri: true, NF: 3, Ac: true, Docs: docs, Qs: qs})
+			}
 			// pattern fields: the three implementations must join lists, match keywords and combine with ordinary fields alike
 			for i := 0; i < n/5; i++ {
 				docs, qs := acDocsQueries(r, i%3 == 0)
